@@ -49,7 +49,12 @@ CLAIM = dict(
          'results); oracle contracts (Section hypotheses): matrix_skeleton returns U V = A; truncate keeps '
          'well-formedness and shape and changes an entry by err k; lstsq solves N x = rhs (residual validated on every '
          'recorded call); the (sign, d-th root) pair of tensors.delta satisfies s*w^d = v; Generator.normal (draws '
-         'recorded through an auditing generator passed as seed). Each contract has a non-vacuity Example.',
+         'recorded through an auditing generator passed as seed). Each contract has a non-vacuity Example. The delta '
+         'contract is validated on every recorded teneva.delta call (product of the entries = v, exactly below its '
+         '1e-16 threshold). History streams: repeated cores()/calc/coeffs calls on one ANOVA / ANOVA_func object are '
+         'compared with the stateless model and the fitted state (f0, f1, f2, domain, cached f1_arr/f2_arr) must be '
+         'exactly unchanged after every call. anova_func families: constant data with inexact mean, scales 1e-300 '
+         '.. 1e200 (default-e rounding only for 1e-100 .. 1e100: truncate squares the entries).',
     technique='Coq proof (chain invariants, telescoping, grid sums over an abstract commutative ring / field) + '
               'model/implementation correspondence over Qc + independent Fraction/numpy oracle on the implementation')
 TRUSTED = ['Coq 8.16.1 kernel + vm_compute (case evaluation only)',
@@ -497,16 +502,39 @@ def corr_order2(R, ctx, tn):
     return bad
 
 
-def gen_func(rng, ill=False):
+FUNC_FAMILIES = ['generic', 'generic', 'generic', 'const_inexact', 'const_exact', 'tiny18', 'tiny100', 'tiny300',
+                 'huge100', 'huge200', 'mixed_tiny']
+NO_ROUNDING = ('tiny300', 'huge200')   # truncate squares the entries: under/overflow there is not C13's subject
+
+
+def gen_func(rng, family='generic'):
+    """(X, y, n, a, b, lamb, d).  Families: generic; constant data whose mean is / is not exactly representable
+    (fitted higher coefficients are exactly zero / rounding noise ~1e-17..1e-25: the 1e-16 branch of tensors.delta);
+    data at scale 1e-18, 1e-100, 1e-300 (every coefficient below the 1e-16 threshold), 1e100, 1e200; one tiny
+    deviation on top of O(1) data."""
     d = rng.randint(2, 3)
     n = rng.randint(2, 4)
-    m = rng.randint(n + 3, n + 8)
+    small = family not in ('generic',)
+    m = rng.randint(n + 3, n + (5 if small else 8))
     box = rng.choice([(-1., 1.), (-1., 1.), (0., 2.), (-2., 2.), (-1., 3.)])
     a, b = box
     X = [[a + (b - a) * rng.randint(0, 16) / 16. for _ in range(d)] for _ in range(m)]
     if rng.random() < 0.15:   # points outside the box are clipped by poi_scale
         X[rng.randrange(m)][rng.randrange(d)] = b + 0.5
-    y = [rng.randint(-16, 16) / 4. for _ in range(m)]
+    if family == 'const_inexact':
+        y = [rng.choice([0.1, -0.7, 1. / 3., 0.3, 1e-3, -2.6])] * m
+    elif family == 'const_exact':
+        y = [rng.choice([2., -0.75, 0., 5.])] * m
+    elif family in ('tiny18', 'tiny100', 'tiny300', 'huge100', 'huge200'):
+        sc = {'tiny18': 1e-18, 'tiny100': 1e-100, 'tiny300': 1e-300, 'huge100': 1e100, 'huge200': 1e200}[family]
+        y = [rng.randint(-16, 16) * sc for _ in range(m)]
+        if all(v == 0 for v in y):
+            y[0] = sc
+    elif family == 'mixed_tiny':
+        y = [1.5] * m
+        y[rng.randrange(m)] += rng.choice([2. ** -52, 2. ** -51, -2. ** -52])
+    else:
+        y = [rng.randint(-16, 16) / 4. for _ in range(m)]
     lamb = rng.choice([2. ** -10, 2. ** -4, 1., 1e-7])
     return X, y, n, a, b, lamb, d
 
@@ -531,66 +559,263 @@ class LstsqRecorder:
         self.mod.lstsq = self.orig
 
 
+class DeltaRecorder:
+    """records every teneva.delta(n, i, v) call made through the package attribute (as anova_func.py does)"""
+
+    def __init__(self, tn):
+        self.tn, self.orig, self.calls = tn, tn.delta, []
+
+    def __enter__(self):
+        def wrapped(n, i, v=1.):
+            Y = self.orig(n, i, v)
+            self.calls.append((list(n), [int(t) for t in i], float(v), [np.array(G, copy=True) for G in Y]))
+            return Y
+        self.tn.delta = wrapped
+        return self
+
+    def __exit__(self, *a):
+        self.tn.delta = self.orig
+
+
+def delta_contract(call):
+    """the contract assumed of tensors.delta by C13_cores_pre_get (s * w^d = v), checked on the returned cores:
+    rank-1 cores of shape (1, n_k, 1), zero outside position i_k, product of the d non-zero entries = v
+    (exactly when |v| <= 1e-16: the code then uses s = v, w = 1; within d ulp-ish 1e-13 relative otherwise)"""
+    ns, idx, v, Y = call
+    if len(Y) != len(ns):
+        return f'{len(Y)} cores for d={len(ns)}'
+    prod = Fraction(1)
+    for k, G in enumerate(Y):
+        if G.shape != (1, ns[k], 1):
+            return f'core {k} has shape {G.shape}'
+        col = G[0, :, 0]
+        if any(col[t] != 0. for t in range(ns[k]) if t != idx[k]):
+            return f'core {k} is not zero outside position {idx[k]}'
+        if not math.isfinite(float(col[idx[k]])):
+            return f'core {k} entry is not finite'
+        prod *= Fraction(float(col[idx[k]]))
+    if abs(v) <= 1e-16:
+        if prod != Fraction(v):
+            return f'product of the entries {float(prod)!r} != v = {v!r} (|v| <= 1e-16 branch: s = v, w = 1)'
+    elif abs(float(prod - Fraction(v))) > 1e-13 * abs(v):
+        return f'product of the entries {float(prod)!r} != v = {v!r}'
+    return None
+
+
 def corr_func(R, ctx, tn):
-    """anova_func: normal equations of the model (Qc) vs the recorded lstsq calls (matrix, rhs to 1e-12, residual
-    of the recorded solution in the model's system), coefficient tensor dense (e=None: 1e-12; default e: 1e-7)"""
+    """anova_func: normal equations of the model (Qc) vs the recorded lstsq calls (matrix 1e-12, rhs 1e-12*m*max|y|,
+    residual of the recorded solution in the model's system), contract of every recorded tensors.delta call, dense
+    coefficient tensor (e=None: 1e-12 relative to the largest coefficient; default e: 1e-7 relative in norm),
+    HISTORY: coeffs / cores() called again on the same ANOVA_func object and the module function called again give
+    bit-identical results"""
     rng = ctx['rng']
-    n_cases = 40 if not ctx['thorough'] else 250
+    n_cases = 44 if not ctx['thorough'] else 264
     cases, meta = [], []
-    dist = dict(d={}, n={}, lamb={})
+    dist = dict(d={}, n={}, lamb={}, family={})
     for c in range(n_cases):
-        X, y, n, a, b, lamb, d = gen_func(rng)
-        with LstsqRecorder() as rec:
-            Yn = tn.anova_func(np.array(X), np.array(y), n, a, b, lamb, e=None)
-        calls = rec.calls
-        Ye = tn.anova_func(np.array(X), np.array(y), n, a, b, lamb)
+        family = FUNC_FAMILIES[c % len(FUNC_FAMILIES)]
+        X, y, n, a, b, lamb, d = gen_func(rng, family)
+        Xa, ya = np.array(X), np.array(y)
+        hist = []
+        with LstsqRecorder() as rec, DeltaRecorder(tn) as drec:
+            F = tn.ANOVA_func(Xa, ya, n, a, b, lamb)
+            cf1 = [np.array(c_, dtype=float).reshape(-1).copy() for c_ in F.coeffs]
+            Yn = F.cores(e=None)
+            ncalls1 = len(rec.calls)
+            cf2 = [np.array(c_, dtype=float).reshape(-1).copy() for c_ in F.coeffs]
+            Yn2 = F.cores(e=None)
+            cf3 = [np.array(c_, dtype=float).reshape(-1).copy() for c_ in F.coeffs]
+            if len(rec.calls) != ncalls1:
+                hist.append('coeffs were recomputed on the second call')
+            calls = rec.calls[:ncalls1]
+            dcalls = list(drec.calls)
+        Ym = tn.anova_func(Xa, ya, n, a, b, lamb, e=None)
+        Ym2 = tn.anova_func(Xa, ya, n, a, b, lamb, e=None)
+        for nm, u, w in (('coeffs after cores()', cf1, cf2), ('coeffs after 2nd cores()', cf1, cf3)):
+            if len(u) != len(w) or not all(np.array_equal(p_, q_) for p_, q_ in zip(u, w)):
+                hist.append(f'{nm} differ from the first coeffs')
+        fn = tn.full(Yn)
+        for nm, Z in (('2nd cores(e=None) on the same object', Yn2), ('anova_func(e=None)', Ym),
+                      ('2nd anova_func(e=None)', Ym2)):
+            if not np.array_equal(tn.full(Z), fn):
+                hist.append(f'{nm} differs from the first cores(e=None)')
+        if not np.array_equal(Xa, np.array(X)) or not np.array_equal(ya, np.array(y)):
+            hist.append('arguments were modified')
+        Ye = None if family in NO_ROUNDING else tn.anova_func(Xa, ya, n, a, b, lamb)
         REC = qnested([c_[2].tolist() for c_ in calls])
         args = (f'{qnested(X)} {qlist(y)} {n}%nat {qlist([a] * d)} {qlist([b] * d)} {C.qlit(Fraction(lamb))}')
         cases.append(f'show_sys (systems OQc {args})')
         cases.append(f'show_dense (anova_func OQc {args} (fun i _ _ => nth i {REC} []) splitQ None)')
-        meta.append((X, y, n, a, b, lamb, d, calls, Yn, Ye))
-        for k, v in (('d', d), ('n', n), ('lamb', lamb)):
+        meta.append((X, y, n, a, b, lamb, d, calls, Yn, Ye, dcalls, hist, family))
+        for k, v in (('d', d), ('n', n), ('lamb', lamb), ('family', family)):
             dist[k][str(v)] = dist[k].get(str(v), 0) + 1
     vals = C.run_cases('C13_func', HEADER, cases, chunk=6)
     bad = []
-    for c, (X, y, n, a, b, lamb, d, calls, Yn, Ye) in enumerate(meta):
-        inp = dict(stream='func', X=X, y=y, n=n, a=a, b=b, lamb=lamb)
+    for c, (X, y, n, a, b, lamb, d, calls, Yn, Ye, dcalls, hist, family) in enumerate(meta):
+        inp = dict(stream='func', X=X, y=y, n=n, a=a, b=b, lamb=lamb, family=family)
         R.add_distinct(('func', X, y, n, a, b, lamb))
         ms, md = vals[2 * c], vals[2 * c + 1]
-        why = None
+        why = hist[0] if hist else None
         try:
+            ymax = max(abs(v) for v in y)
             if len(calls) != d or len(ms) != 3 * d:
-                why = f'{len(calls)} lstsq calls, {len(ms) // 3} model systems, d={d}'
+                why = why or f'{len(calls)} lstsq calls, {len(ms) // 3} model systems, d={d}'
             else:
+                xmax = 0.
                 for i, (N, rhs, x) in enumerate(calls):
                     Nm, rm = fr_list(ms[3 * i + 1]), fr_list(ms[3 * i + 2])
-                    sc = max(1.0, float(np.max(np.abs(N))), float(np.max(np.abs(rhs))))
+                    scN = max(1.0, float(np.max(np.abs(N))))
+                    scr = len(y) * ymax
                     if ms[3 * i] != [n, n] or N.shape != (n, n) or \
-                            not all(close(p, q, 1e-12 * sc) for p, q in zip(Nm, N.reshape(-1))):
+                            not all(close(p, q, 1e-12 * scN) for p, q in zip(Nm, N.reshape(-1))):
                         why = why or f'normal matrix {i} differs'
-                    if len(rm) != len(rhs) or not all(close(p, q, 1e-12 * sc) for p, q in zip(rm, rhs)):
+                    if len(rm) != len(rhs) or not all(close(p, q, 1e-12 * scr) for p, q in zip(rm, rhs)):
                         why = why or f'right-hand side {i} differs'
                     # contract of the solver oracle on the model's own system
                     xs = [Fraction(float(v)) for v in x]
+                    xmax = max(xmax, float(np.max(np.abs(x))))
                     res = max(abs(float(sum(Nm[p * n + q] * xs[q] for q in range(n)) - rm[p])) for p in range(n))
-                    if res > 1e-7 * sc * max(1.0, float(np.max(np.abs(x)))) / min(1.0, lamb * 1e4):
+                    if res > 1e-7 * max(scr, scN * float(np.max(np.abs(x)))) / min(1.0, lamb * 1e4):
                         why = why or f'recorded lstsq solution {i} does not solve the normal equations: {res:.2e}'
+                # contract of tensors.delta on every recorded call: 1 + d*(n-1) calls
+                if len(dcalls) != 2 * (1 + d * (n - 1)):
+                    why = why or f'{len(dcalls)} delta calls for two cores() calls, expected {2 * (1 + d * (n - 1))}'
+                for dc in dcalls:
+                    w = delta_contract(dc)
+                    if w:
+                        why = why or f'tensors.delta({dc[0]}, {dc[1]}, {dc[2]!r}): {w}'
                 full = tn.full(Yn)
                 dm = fr_list(md[1])
-                sc = max(1.0, float(np.max(np.abs(full))))
+                sc = max([ymax, xmax] + [abs(float(v)) for v in dm])
                 if md[0] != list(full.shape) or not all(close(m, x, 1e-12 * sc) for m, x in zip(dm, full.reshape(-1))):
-                    why = why or 'coefficient tensor (e=None) differs'
-                fe = tn.full(Ye)
-                if fe.shape != full.shape or float(np.linalg.norm(fe - full)) > 1e-7 * max(1.0, float(np.linalg.norm(full))):
-                    why = why or 'coefficient tensor (default e) differs from the unrounded one'
+                    err = max(abs(float(m) - float(x)) for m, x in zip(dm, full.reshape(-1)))
+                    why = why or f'coefficient tensor (e=None) differs from the model by {err:.3e} (scale {sc:.3e})'
+                if Ye is not None:
+                    fe = tn.full(Ye)
+                    if fe.shape != full.shape or \
+                            not float(np.linalg.norm(fe - full)) <= 1e-7 * float(np.linalg.norm(full)):
+                        why = why or 'coefficient tensor (default e) differs from the unrounded one'
         except Exception as e:  # noqa
-            why = 'comparison raised ' + repr(e)[:200]
+            why = why or 'comparison raised ' + repr(e)[:200]
         if why:
             bad.append(dict(stream='func', input=inp, why=why))
     _append_corr(R, 'anova_func', len(cases), bad,
-                 'normal equations model(Qc) vs recorded lstsq arguments 1e-12; solver contract residual; dense '
-                 'coefficient tensor 1e-12 (e=None) and 1e-7 relative (default e)', dist,
+                 'normal equations model(Qc) vs recorded lstsq arguments 1e-12; solver contract residual; contract of '
+                 'every recorded tensors.delta call (product of entries = v, exact below the 1e-16 threshold); dense '
+                 'coefficient tensor 1e-12 relative (e=None) and 1e-7 relative (default e); repeated coeffs / cores() '
+                 '/ anova_func calls bit-identical', dist,
                  dict(stream='anova_func', input=dict(X=meta[0][0], y=meta[0][1], n=meta[0][2]), model=vals[1][:1]))
+    return bad
+
+
+def _state(A):
+    """snapshot of the fitted state of an ANOVA object (exact)"""
+    return dict(f0=float(A.f0), domain=[[int(v) for v in dm] for dm in A.domain], shapes=[int(v) for v in A.shapes],
+                f1=[{int(k): float(v) for k, v in cur.items()} for cur in A.f1],
+                f2=[{(int(k[0]), int(k[1])): float(v) for k, v in cur.items()} for cur in A.f2],
+                order=int(A.order), d=int(A.d))
+
+
+def _state_diff(A, S):
+    """None if the state of A equals the snapshot S and the cached arrays f1_arr / f2_arr agree with f1 / f2"""
+    T = _state(A)
+    for k in S:
+        if T[k] != S[k]:
+            return f'attribute {k} changed'
+    for k, (dm, arr) in enumerate(zip(A.domain, A.f1_arr)):
+        want = [S['f1'][k][int(x)] for x in dm]
+        if [float(v) for v in arr] != want:
+            return f'f1_arr[{k}] = {[float(v) for v in arr]} is not f1[{k}] in domain order = {want}'
+    if S['order'] >= 2:
+        num = 0
+        for k1 in range(S['d'] - 1):
+            for k2 in range(k1 + 1, S['d']):
+                want = [S['f2'][num][int(x1), int(x2)] for x1 in A.domain[k1] for x2 in A.domain[k2]]
+                if [float(v) for v in A.f2_arr[num]] != want:
+                    return f'f2_arr[{num}] is not f2[{num}] in domain order'
+                num += 1
+    return None
+
+
+def corr_history(R, ctx, tn):
+    """HISTORY: on ONE ANOVA object, 2-4 calls of cores(r_j, noise=0) / calc / __call__ with varying r; every result is
+    compared with the (stateless) model, and after every call the fitted state (f0, f1, f2, domain, shapes) must be
+    exactly what it was after the build, with f1_arr / f2_arr equal to f1 / f2 in domain order.  Also teneva.anova
+    called twice with the same arguments (bit-identical, arguments unchanged)."""
+    rng = ctx['rng']
+    n_cases = 30 if not ctx['thorough'] else 200
+    cases, meta = [], []
+    dist = dict(order={}, d={}, ncalls={})
+    for c in range(n_cases):
+        rows, y, desc = gen_samples(rng, nmax=3)
+        order = rng.choice([1, 1, 2])
+        shp = [len(set(r_[k] for r_ in rows)) for k in range(desc['d'])]
+        I, yy = np.array(rows, dtype=int), np.array(y, dtype=float)
+        A = tn.ANOVA(I, yy, order=order, seed=rng.randrange(2 ** 31))
+        S = _state(A)
+        if c % 2 == 0:
+            A.f1_arr  # the cache exists before the first call in half of the cases
+        ncalls = rng.randint(2, 4)
+        steps = []
+        Iq, yq = C.nested(rows, C.zlit), qlist(y)
+        for t in range(ncalls):
+            r = (lossless_rank(shp) + rng.randint(0, 1)) if order == 2 else rng.randint(2, 4)
+            res = C.call_impl(lambda: tn.full(A.cores(r=r, noise=0.)))
+            st = _state_diff(A, S)
+            pt = rng.choice(rows)
+            cv = C.call_impl(A.calc, np.array(pt))
+            st = st or _state_diff(A, S)
+            cases.append(f'show_r show_dense (anova_tt OQc {Iq} {yq} {r}%nat {order}%nat (Q2Qc 0) (g4 []) skelQ truncQ)')
+            cases.append(f'show_r (fun M => show_r (fun v => [[0]; sq v]) (calc OQc M {C.zlist(pt)})) '
+                         f'(ANOVA OQc {Iq} {yq} {order}%nat)')
+            steps.append((r, res, st, pt, cv))
+        # the module function twice
+        Y1 = tn.anova(I, yy, r=3, order=order, noise=0., seed=5)
+        Y2 = tn.anova(I, yy, r=3, order=order, noise=0., seed=5)
+        again = None
+        if len(Y1) != len(Y2) or not all(np.array_equal(p_, q_) for p_, q_ in zip(Y1, Y2)):
+            again = 'teneva.anova called twice with the same arguments gives different cores'
+        if not np.array_equal(I, np.array(rows, dtype=int)) or not np.array_equal(yy, np.array(y, dtype=float)):
+            again = again or 'teneva.anova / ANOVA modified its arguments'
+        meta.append((rows, y, order, steps, again, desc))
+        for k, v in (('order', order), ('d', desc['d']), ('ncalls', ncalls)):
+            dist[k][str(v)] = dist[k].get(str(v), 0) + 1
+    vals = C.run_cases('C13_history', HEADER, cases, chunk=6)
+    bad, pos = [], 0
+    for rows, y, order, steps, again, desc in meta:
+        scale = max(1.0, max(abs(v) for v in y))
+        why = again
+        for t, (r, res, st, pt, cv) in enumerate(steps):
+            md, mc = vals[pos], vals[pos + 1]
+            pos += 2
+            R.add_distinct(('history', rows, y, order, t, r))
+            if st:
+                why = why or f'state after call {t + 1} (cores(r={r}) / calc): {st}'
+            try:
+                if res[0] != 0 or md[0] != [0]:
+                    why = why or f'call {t + 1}: cores(r={r}) impl {res[0]} model {md[0]}'
+                else:
+                    full = np.array(res[1], dtype=float)
+                    tol = (1e-11 if order == 1 else 1e-8) * scale
+                    dm = fr_list(md[2])
+                    if md[1] != list(full.shape) or len(dm) != full.size or \
+                            not all(close(m, x, tol) for m, x in zip(dm, full.reshape(-1))):
+                        err = max(abs(float(m) - float(x)) for m, x in zip(dm, full.reshape(-1))) \
+                            if len(dm) == full.size else -1.
+                        why = why or f'call {t + 1} of cores (r={r}) on the same object differs from the model by {err:.3e}'
+                if cv[0] != 0 or mc[:3] != [[0], [0], [0]] or not close(fr_list(mc[3])[0], cv[1], 1e-11 * scale):
+                    why = why or f'call {t + 1}: calc({pt}) impl {cv} model {mc}'
+            except Exception as e:  # noqa
+                why = why or 'comparison raised ' + repr(e)[:200]
+        if why:
+            bad.append(dict(stream='history', input=dict(stream='history', rows=rows, y=y, order=order,
+                                                         r=[s_[0] for s_ in steps]), why=why))
+    _append_corr(R, 'anova_history', len(cases), bad,
+                 'repeated cores(r_j, noise=0) / calc on one ANOVA object vs the stateless model (dense 1e-11 order 1, '
+                 '1e-8 order 2); fitted state and cached f1_arr / f2_arr exactly unchanged after every call; '
+                 'teneva.anova twice bit-identical', dist,
+                 dict(stream='anova_history', input=dict(rows=meta[0][0], y=meta[0][1], order=meta[0][2],
+                                                         r=[s_[0] for s_ in meta[0][3]]), model=vals[0][:2]))
     return bad
 
 
@@ -602,6 +827,7 @@ def correspondence(R, ctx):
         bad += corr_stats(R, ctx, tn)
         bad += corr_cores1(R, ctx, tn)
         bad += corr_order2(R, ctx, tn)
+        bad += corr_history(R, ctx, tn)
         bad += corr_func(R, ctx, tn)
     return bad
 
@@ -621,6 +847,8 @@ def oracle_anova(tn, rows, y, r, order, noise, seed=1):
     try:
         A = tn.ANOVA(I, yy, order=order, seed=seed)
         Y = A.cores(r=r, noise=noise)
+        Y2 = A.cores(r=r, noise=noise)          # history: the same object asked again
+        Y3 = A.cores(r=r + 1, noise=noise)
         Yf = tn.anova(I, yy, r=r, order=order, noise=noise, seed=seed)
     except Exception as e:  # noqa
         return dict(what='anova raised on valid samples: ' + repr(e)[:200], input=inp)
@@ -636,6 +864,11 @@ def oracle_anova(tn, rows, y, r, order, noise, seed=1):
             if not close(f1[k][x], A.f1[k][x], tol):
                 return dict(what=f'ANOVA.f1[{k}][{x}] is not the conditional mean minus f0', input=inp,
                             got=float(A.f1[k][x]), expected=float(f1[k][x]))
+    for k in range(d):   # the cached array form, after several cores() calls
+        got = [float(v) for v in A.f1_arr[k]]
+        if len(got) != len(dom[k]) or not all(close(f1[k][x], g_, tol) for x, g_ in zip(dom[k], got)):
+            return dict(what=f'ANOVA.f1_arr[{k}] after repeated cores() calls is not the conditional mean minus f0',
+                        input=inp, got=got, expected=[float(f1[k][x]) for x in dom[k]])
     if order >= 2:
         for (k1, k2), cur in f2.items():
             num = A.pair_num_to_num(k1, k2)
@@ -652,17 +885,18 @@ def oracle_anova(tn, rows, y, r, order, noise, seed=1):
                 return dict(what='ANOVA.__call__/calc differs from constant + univariate (+ pair) terms', input=inp,
                             at=[int(v) for v in x], got=float(val), expected=float(ref[pos]))
     # TT-tensor
-    for name, Z in (('ANOVA.cores', Y), ('anova', Yf)):
+    for name, Z, rr in (('ANOVA.cores', Y, r), ('ANOVA.cores (2nd call on the same object)', Y2, r),
+                        ('ANOVA.cores (3rd call on the same object, r+1)', Y3, r + 1), ('anova', Yf, r)):
         if [G.shape[1] for G in Z] != shp:
             return dict(what=f'{name}: mode sizes are not the observed ones', input=inp,
                         got=[G.shape[1] for G in Z], expected=shp)
         rk = ranks_of(Z)
         if any(G.shape[0] != rk[k] for k, G in enumerate(Z)) or rk[-1] != 1:
             return dict(what=f'{name}: inconsistent core shapes', input=inp, got=[G.shape for G in Z])
-        if order == 1 and rk != [1] + [r] * (d - 1) + [1]:
-            return dict(what=f'{name}: order-1 TT-ranks are not all equal to r', input=inp, got=rk, expected=r)
-        if order == 2 and max(rk) > r:
-            return dict(what=f'{name}: order-2 TT-ranks exceed r', input=inp, got=rk, expected=r)
+        if order == 1 and rk != [1] + [rr] * (d - 1) + [1]:
+            return dict(what=f'{name}: order-1 TT-ranks are not all equal to r', input=inp, got=rk, expected=rr)
+        if order == 2 and max(rk) > rr:
+            return dict(what=f'{name}: order-2 TT-ranks exceed r', input=inp, got=rk, expected=rr)
         full = tn.full(Z)
         if not np.all(np.isfinite(full)):
             return dict(what=f'{name}: non-finite tensor', input=inp)
@@ -674,11 +908,11 @@ def oracle_anova(tn, rows, y, r, order, noise, seed=1):
         if order == 1 and noise > 0.:
             # first-order perturbation scale: noise * (#entries touched) * magnitude; generous factor
             err = max(abs(float(ref[pos] - Fraction(float(full[pos])))) for pos in np.ndindex(*shp))
-            bound = noise * 40. * r * r * d * (1. + 2. * d * scale) * (1. + noise * 6. * r) ** d + tol
+            bound = noise * 40. * rr * rr * d * (1. + 2. * d * scale) * (1. + noise * 6. * rr) ** d + tol
             if err > bound:
                 return dict(what=f'{name}: order-1 tensor is further from f0 + sum f1 than the noise explains',
                             input=inp, got=err, expected=bound)
-        if order == 2 and noise == 0. and r >= lossless_rank(shp):
+        if order == 2 and noise == 0. and rr >= lossless_rank(shp):
             err = max(abs(float(ref[pos] - Fraction(float(full[pos])))) for pos in np.ndindex(*shp))
             if err > 1e-6 * scale:
                 return dict(what=f'{name}: order-2 tensor (r large enough) differs from f0 + sum f1 + sum f2',
@@ -686,55 +920,87 @@ def oracle_anova(tn, rows, y, r, order, noise, seed=1):
     return None
 
 
-def oracle_func(tn, X, y, n, a, b, lamb, pts):
-    inp = dict(kind='func', X=X, y=y, n=n, a=a, b=b, lamb=lamb, pts=pts)
+def cheb_ref(k, t):
+    """T_k(t) by cos(k arccos t), independent of teneva's recurrence"""
+    return np.cos(k * np.arccos(np.clip(t, -1., 1.)))
+
+
+def oracle_func(tn, X, y, n, a, b, lamb, pts, rounding=True):
+    inp = dict(kind='func', X=X, y=y, n=n, a=a, b=b, lamb=lamb, pts=pts, rounding=rounding)
     try:
         F = tn.ANOVA_func(np.array(X), np.array(y), n, a, b, lamb)
         cfs = [np.array(c, dtype=float).reshape(-1) for c in F.coeffs]
-        A = tn.anova_func(np.array(X), np.array(y), n, a, b, lamb)
         A0 = tn.anova_func(np.array(X), np.array(y), n, a, b, lamb, e=None)
+        A0b = F.cores(e=None)
+        A0c = F.cores(e=None)        # history: the same object asked again
+        A = tn.anova_func(np.array(X), np.array(y), n, a, b, lamb) if rounding else None
         d = len(X[0])
         P = np.array(pts)
-        got = tn.func_get(P, A, a, b)
         got0 = tn.func_get(P, A0, a, b)
+        got = tn.func_get(P, A, a, b) if rounding else None
     except Exception as e:  # noqa
         return dict(what='anova_func raised on valid input: ' + repr(e)[:200], input=inp)
-    if [G.shape[1] for G in A] != [n] * d:
-        return dict(what='anova_func: mode sizes are not n', input=inp, got=[G.shape[1] for G in A])
+    for Z in [A0, A0b, A0c] + ([A] if rounding else []):
+        if [G.shape[1] for G in Z] != [n] * d:
+            return dict(what='anova_func: mode sizes are not n', input=inp, got=[G.shape[1] for G in Z])
+    csc = max(float(np.max(np.abs(c))) for c in cfs)     # scale of the fitted coefficients (pure relative checks)
+    # the coefficient tensor itself: c0 at 0, cf_i[p] at (p+1) e_i, zero elsewhere
+    exp_t = np.zeros([n] * d)
+    exp_t[(0,) * d] = cfs[0][0]
+    for i in range(d):
+        for p, c in enumerate(cfs[1 + i]):
+            idx = [0] * d
+            idx[i] = p + 1
+            exp_t[tuple(idx)] = c
+    for name, Z, tol in [('anova_func(e=None)', A0, 1e-12), ('ANOVA_func.cores(e=None)', A0b, 1e-12),
+                         ('ANOVA_func.cores(e=None), 2nd call', A0c, 1e-12)] + \
+                        ([('anova_func (default e)', A, 1e-6)] if rounding else []):
+        full = tn.full(Z)
+        err = float(np.max(np.abs(full - exp_t))) if np.all(np.isfinite(full)) else float('inf')
+        if not err <= tol * csc:
+            pos = np.unravel_index(int(np.argmax(np.abs(full - exp_t))), exp_t.shape)
+            return dict(what=f'{name}: coefficient tensor is not c0 at 0, cf_i[p] at (p+1)e_i, zero elsewhere',
+                        input=inp, at=[int(v) for v in pos], got=float(full[pos]), expected=float(exp_t[pos]),
+                        err=err, allowed=tol * csc)
     # independent: fitted constant + sum of fitted 1-D Chebyshev expansions, T_k(t) = cos(k arccos t)
     t = np.clip((P - (b + a) / 2.) * (2. / (b - a)), -1., 1.)
     exp = np.full(len(pts), float(cfs[0][0]))
     for i in range(d):
         for p, c in enumerate(cfs[1 + i]):
-            exp += c * np.cos((p + 1) * np.arccos(t[:, i]))
-    sc = max(1.0, float(np.max(np.abs(exp))), max(float(np.max(np.abs(c))) for c in cfs))
-    for name, g, tol in (('rounded', got, 1e-6), ('e=None', got0, 1e-10)):
+            exp += c * cheb_ref(p + 1, t[:, i])
+    for name, g, tol in ([('rounded', got, 1e-6)] if rounding else []) + [('e=None', got0, 1e-10)]:
         err = float(np.max(np.abs(g - exp)))
-        if not err <= tol * sc:
+        if not err <= tol * csc * (1 + d * n):
             return dict(what=f'anova_func ({name}): interpolant differs from fitted constant + 1-D expansions',
-                        input=inp, got=err, expected=tol * sc)
-    # the fit itself: ridge normal equations, recomputed independently
+                        input=inp, got=err, expected=tol * csc * (1 + d * n))
+    # the fit itself: ridge normal equations, recomputed independently (on data scaled to O(1))
     Xs = np.clip((np.array(X) - (b + a) / 2.) * (2. / (b - a)), -1., 1.)
     yy = np.array(y, dtype=float)
+    ysc = float(np.max(np.abs(yy)))
+    if ysc == 0.:
+        return None if csc == 0. else dict(what='ANOVA_func.coeffs are not zero for zero data', input=inp,
+                                           got=[c.tolist() for c in cfs])
     y0 = yy.mean()
-    c0 = y0
+    yc = (yy - y0) / ysc
+    c0 = y0 / ysc
+    rtol = 1e-6 / min(1., lamb * 1e4)
     for i in range(d):
-        B = np.cos(np.arange(n)[None, :] * np.arccos(Xs[:, i])[:, None])
-        cf = np.linalg.solve(B.T @ B + lamb * np.eye(n), B.T @ (yy - y0))
+        B = cheb_ref(np.arange(n)[None, :], Xs[:, i][:, None])
+        cf = np.linalg.solve(B.T @ B + lamb * np.eye(n), B.T @ yc)
         c0 += cf[0]
-        if len(cfs[1 + i]) != n - 1 or float(np.max(np.abs(cf[1:] - cfs[1 + i]), initial=0.)) > 1e-6 * sc / min(1., lamb * 1e4):
+        if len(cfs[1 + i]) != n - 1 or float(np.max(np.abs(cf[1:] - cfs[1 + i] / ysc), initial=0.)) > rtol:
             return dict(what=f'ANOVA_func.coeffs[{1 + i}] does not solve the ridge normal equations', input=inp,
-                        got=cfs[1 + i].tolist(), expected=cf[1:].tolist())
-    if abs(c0 - cfs[0][0]) > 1e-6 * sc / min(1., lamb * 1e4):
+                        got=cfs[1 + i].tolist(), expected=(cf[1:] * ysc).tolist())
+    if abs(c0 - cfs[0][0] / ysc) > rtol:
         return dict(what='ANOVA_func.coeffs[0] is not mean + sum of the fitted constant terms', input=inp,
-                    got=float(cfs[0][0]), expected=float(c0))
+                    got=float(cfs[0][0]), expected=float(c0 * ysc))
     return None
 
 
 def _run_oracle(tn, p):
     with np.errstate(all='ignore'):
         if p.get('kind') == 'func':
-            return oracle_func(tn, p['X'], p['y'], p['n'], p['a'], p['b'], p['lamb'], p['pts'])
+            return oracle_func(tn, p['X'], p['y'], p['n'], p['a'], p['b'], p['lamb'], p['pts'], p.get('rounding', True))
         return oracle_anova(tn, p['rows'], p['y'], p['r'], p['order'], p['noise'], p.get('seed', 1))
 
 
@@ -748,6 +1014,9 @@ def search(R, ctx, deep, hints):
         inp = h.get('input', {})
         if not isinstance(inp, dict):
             continue
+        if inp.get('stream') == 'history':
+            for r in sorted(set(inp['r'])):
+                cand.append(dict(kind='anova', rows=inp['rows'], y=inp['y'], r=r, order=inp['order'], noise=0.))
         if inp.get('stream') in ('stats', 'cores1', 'order2'):
             for order in ([inp['order']] if 'order' in inp else ([2] if inp['stream'] == 'order2' else [1])):
                 cand.append(dict(kind='anova', rows=inp['rows'], y=inp['y'], r=inp.get('r', 3), order=order,
@@ -757,7 +1026,7 @@ def search(R, ctx, deep, hints):
         if inp.get('stream') == 'func':
             pts = [[inp['a'] + (inp['b'] - inp['a']) * rng.random() for _ in inp['X'][0]] for _ in range(5)]
             cand.append(dict(kind='func', X=inp['X'], y=inp['y'], n=inp['n'], a=inp['a'], b=inp['b'],
-                             lamb=inp['lamb'], pts=pts))
+                             lamb=inp['lamb'], pts=pts, rounding=inp.get('family') not in NO_ROUNDING))
     # degenerate families
     grid2 = [[i, j] for i in range(2) for j in range(3)]
     cand.append(dict(kind='anova', rows=grid2, y=[1, 2, 3, 4, 5, 6], r=2, order=1, noise=0.))
@@ -788,10 +1057,19 @@ def search(R, ctx, deep, hints):
     for _ in range(20 if not deep else 100):
         rows, y, desc = gen_samples(rng, kind='additive_full')
         cand.append(dict(kind='anova', rows=rows, y=y, r=rng.randint(2, 4), order=1, noise=0., additive=True))
-    for _ in range(25 if not deep else 150):
-        X, y, n, a, b, lamb, d = gen_func(rng)
+    # functional variant: degenerate families first (constant data with an inexact mean: the fitted higher
+    # coefficients are rounding noise below the 1e-16 threshold of tensors.delta; tiny / huge scales), then generic
+    Xd = [[-1., 0.5], [0.25, -0.5], [0.75, 1.], [-0.25, 0.], [0.5, -1.], [0., 0.75], [1., 0.25]]
+    for yv in (0.1, -0.7, 1. / 3.):
+        cand.append(dict(kind='func', X=Xd, y=[yv] * 7, n=3, a=-1., b=1., lamb=1e-7,
+                         pts=[[0.3, -0.6], [-0.9, 0.1], [0.77, 0.55]]))
+    cand.append(dict(kind='func', X=Xd, y=[3e-18, -1e-18, 4e-18, 1e-18, -5e-18, 9e-18, 2e-18], n=3, a=-1., b=1.,
+                     lamb=1e-7, pts=[[0.3, -0.6], [-0.9, 0.1]]))
+    for k_ in range(33 if not deep else 165):
+        fam = FUNC_FAMILIES[k_ % len(FUNC_FAMILIES)]
+        X, y, n, a, b, lamb, d = gen_func(rng, fam)
         pts = [[a + (b - a) * rng.random() for _ in range(d)] for _ in range(6)]
-        cand.append(dict(kind='func', X=X, y=y, n=n, a=a, b=b, lamb=lamb, pts=pts))
+        cand.append(dict(kind='func', X=X, y=y, n=n, a=a, b=b, lamb=lamb, pts=pts, rounding=fam not in NO_ROUNDING))
     for p in cand:
         n_eval += 1
         try:
